@@ -39,18 +39,24 @@ TRUSTED = [
     "different states and registers) made on ONE CircuitSimulator object, each call compared with the model and the oracle as "
     "for a fresh object; when the patched random choice is not consumed the harness decides from 16 real samples whether the "
     "run samples the branches at all",
+    "gate kinds the simulator special-cases are all generated on every path (run_statistics, prescribed, unconstrained, density "
+    "matrix; before/between/after measurements; under classical control): GLOBALPHASE (0, +-pi/2, pi, 2pi, atan2(4,3)), user gates "
+    "as operator / 0-argument / 1-argument function, TOFFOLI, FREDKIN, ControlledGate(X) with every control value, RX/RY/RZ(pi), "
+    "CPHASE(pi/2); the exact table is validated against the documented formulas at import time",
     "Python floats are modelled as exact field elements; the generated states/gates have Gaussian-rational amplitudes "
     "so that all probabilities are rationals far from the tolerance thresholds",
-    "the model describes /repo with fixes/C02-copy-cbits.diff applied (`alias := false`); the shipped code is the "
-    "`alias := true` variant, refuted in Props/C02.v",
+    "the model describes /repo with fixes/C02-copy-cbits.diff (`alias := false`) and fixes/C02-dm-classical-control.diff "
+    "(density-matrix mode tracks the ensemble per classical register value: dm_run) applied; the shipped variants "
+    "(`alias := true`, dm_run_orig) are refuted in Props/C02.v",
 ]
 ASSUMES = [
     "initial kets are normalised (nrm s0 = 1); classical indices are in range (0 <= index < num_cbits), classical "
     "control values satisfy 0 <= v < 2^len(classical_controls); negative Python indices are not modelled",
     "no conditional outcome probability lies strictly between 0 and the tolerance (guard `clear`; trivially true for "
     "tolerance 0) -- an outcome with 0 < p < 1e-12 is treated by the code as impossible",
-    "density-matrix clause: proved for circuits in which no classically controlled gate reads a classical bit that an "
-    "earlier measurement stores into (guard `dm_safe`); outside this class the code is wrong (known finding)",
+    "density-matrix clause: proved for every circuit (conditioned gates reading measured bits included); on the "
+    "branch-tracking path the guard also assumes that the run raises no exception and that some branch survives the "
+    "tolerance tests (always the case for a normalised input; checked on every generated case)",
     "user-defined gates are assumed unitary",
 ]
 
@@ -80,10 +86,89 @@ GATES = {
 # name -> (M, d, number of controls, number of targets)
 
 
+def _ident(n):
+    return [[1 if r == c else 0 for c in range(n)] for r in range(n)]
+
+
+def _mcx(v):
+    """X on the last qubit iff the two controls (first listed most significant) spell v"""
+    M = _ident(8)
+    a, b = 2 * v, 2 * v + 1
+    M[a][a] = M[b][b] = 0
+    M[a][b] = M[b][a] = 1
+    return _m(M)
+
+
+def _fredkin():
+    M = _ident(8)
+    M[5][5] = M[6][6] = 0
+    M[5][6] = M[6][5] = 1
+    return _m(M)
+
+
+# every gate kind the simulator special-cases, with exactly representable matrices:
+#  GLOBALPHASE (no qubits, scalar e^{i phi}; phi = 0, pi/2, pi, -pi/2, 2 pi and atan2(4,3)),
+#  user gates given as operator (R345), as 0-argument function (UF0, two qubits) and as 1-argument function (UF1_a),
+#  multi-controlled gates (TOFFOLI, FREDKIN, ControlledGate(X) on two controls with every control value),
+#  parameterised library gates at exact angles (RX/RY/RZ(pi), CPHASE(pi/2)).
+PI = math.pi
+GATES.update({
+    "GP_0": (_m([[1]]), 1, 0, 0),
+    "GP_h": (_m([[I_]]), 1, 0, 0),
+    "GP_p": (_m([[-1]]), 1, 0, 0),
+    "GP_mh": (_m([[MI_]]), 1, 0, 0),
+    "GP_2p": (_m([[1]]), 1, 0, 0),
+    "GP_345": (_m([[(3, 4)]]), 25, 0, 0),
+    "UF0": (_m([[3, 0, 0, -4], [0, 3, -4, 0], [4, 0, 0, 3], [0, 4, 3, 0]]), 25, 0, 2),   # (R345 x 1) . CNOT
+    "UF1_1": (_m([[1, 0], [0, I_]]), 1, 0, 1),
+    "UF1_2": (_m([[1, 0], [0, -1]]), 1, 0, 1),
+    "UF1_3": (_m([[1, 0], [0, MI_]]), 1, 0, 1),
+    "FREDKIN": (_fredkin(), 1, 1, 2),
+    "MCX_0": (_mcx(0), 1, 2, 1),
+    "MCX_1": (_mcx(1), 1, 2, 1),
+    "MCX_2": (_mcx(2), 1, 2, 1),
+    "RX_pi": (_m([[0, MI_], [MI_, 0]]), 1, 0, 1),
+    "RY_pi": (_m([[0, -1], [1, 0]]), 1, 0, 1),
+    "RZ_pi": (_m([[MI_, 0], [0, I_]]), 1, 0, 1),
+    "CPHASE_h": (_m([[1, 0, 0, 0], [0, 1, 0, 0], [0, 0, 1, 0], [0, 0, 0, I_]]), 1, 1, 1),
+})
+# how the harness hands the gate to QubitCircuit.add_gate: name -> (library/user name, arg_value)
+PYGATE = {
+    "GP_0": ("GLOBALPHASE", 0.0), "GP_h": ("GLOBALPHASE", PI / 2), "GP_p": ("GLOBALPHASE", PI),
+    "GP_mh": ("GLOBALPHASE", -PI / 2), "GP_2p": ("GLOBALPHASE", 2 * PI), "GP_345": ("GLOBALPHASE", math.atan2(4, 3)),
+    "UF0": ("UF0", None), "UF1_1": ("UF1", 1), "UF1_2": ("UF1", 2), "UF1_3": ("UF1", 3),
+    "RX_pi": ("RX", PI), "RY_pi": ("RY", PI), "RZ_pi": ("RZ", PI), "CPHASE_h": ("CPHASE", PI / 2),
+}
+SPECIAL = ["GP_h", "GP_p", "GP_mh", "GP_345", "GP_345", "GP_0", "GP_2p", "UF0", "UF1_1", "UF1_2", "UF1_3", "FREDKIN",
+           "MCX_0", "MCX_1", "MCX_2", "RX_pi", "RY_pi", "RZ_pi", "CPHASE_h"]
+
+
+def documented_matrix(name):
+    """what the documentation says the gate is (independent of the exact table; used to validate the table)"""
+    if name.startswith("GP_"):
+        return np.array([[np.exp(1j * PYGATE[name][1])]])
+    if name.startswith("UF1_"):
+        return np.diag([1, 1j ** PYGATE[name][1]])
+    if name == "UF0":
+        cnot = np.array([[1, 0, 0, 0], [0, 1, 0, 0], [0, 0, 0, 1], [0, 0, 1, 0]])
+        return np.kron(np.array([[3, -4], [4, 3]]) / 5, np.eye(2)) @ cnot
+    if name in ("RX_pi", "RY_pi", "RZ_pi"):
+        P = {"RX_pi": np.array([[0, 1], [1, 0]]), "RY_pi": np.array([[0, -1j], [1j, 0]]), "RZ_pi": np.diag([1, -1])}[name]
+        return np.cos(PI / 2) * np.eye(2) - 1j * np.sin(PI / 2) * P
+    if name == "CPHASE_h":
+        return np.diag([1, 1, 1, np.exp(1j * PI / 2)])
+    return None
+
+
 def gate_matrix(name):
     M, d, _, _ = GATES[name]
     return np.array([[complex(a, b) for (a, b) in row] for row in M]) / math.sqrt(d)
 
+
+for _g in GATES:
+    _doc = documented_matrix(_g)
+    assert _doc is None or np.allclose(gate_matrix(_g), _doc, atol=1e-12), _g
+    assert np.allclose(gate_matrix(_g).conj().T @ gate_matrix(_g), np.eye(len(GATES[_g][0])), atol=1e-12), _g
 
 # --------------------------------------------------------------------------------------------------
 # inputs
@@ -118,7 +203,10 @@ def rand_op(rng, n, ncb, pm):
         store = rng.randrange(ncb) if (ncb and rng.random() < 0.85) else None
         return {"m": rng.randrange(n), "store": store}
     for _ in range(30):
-        name = rng.choice(["X", "X", "SNOT", "SNOT", "R345", "R345", "Z", "Y", "S", "SQRTNOT", "CNOT", "CNOT", "CZ", "SWAP", "TOFFOLI"])
+        if rng.random() < 0.3:
+            name = rng.choice(SPECIAL)
+        else:
+            name = rng.choice(["X", "X", "SNOT", "SNOT", "R345", "R345", "Z", "Y", "S", "SQRTNOT", "CNOT", "CNOT", "CZ", "SWAP", "TOFFOLI"])
         _, _, nc, nt = GATES[name]
         if nc + nt <= n:
             break
@@ -170,6 +258,43 @@ def gen_input(rng, mode=None, nmax=3, big=False):
     elif mode == "dm":
         inp["dm_from_ket"] = rng.random() < 0.5
     return inp
+
+
+def gen_special(rng, name=None, mode=None, where=None):
+    """a special-cased gate kind at a chosen place (before the first / between / after the last measurement),
+    optionally under classical control, in every mode"""
+    for _ in range(50):
+        name = name or rng.choice(SPECIAL)
+        _, _, nc, nt = GATES[name]
+        inp = gen_input(rng, mode=mode or rng.choice(["stats", "run", "rand", "dm", "dm"]), nmax=3)
+        if inp["n"] < nc + nt or inp["n"] < 1:
+            inp["n"] = max(nc + nt, 1)
+            continue
+        ops = [o for o in inp["ops"]]
+        ms = [i for i, o in enumerate(ops) if "m" in o]
+        if len(ms) < 2:
+            ops += [{"m": rng.randrange(inp["n"]), "store": (rng.randrange(inp["ncb"]) if inp["ncb"] else None)} for _ in range(2 - len(ms))]
+            ms = [i for i, o in enumerate(ops) if "m" in o]
+        where = where or rng.choice(["before", "between", "after"])
+        pos = {"before": rng.randint(0, ms[0]), "between": rng.randint(ms[0] + 1, ms[-1]), "after": rng.randint(ms[-1] + 1, len(ops))}[where]
+        g = {"g": name, "q": rng.sample(range(inp["n"]), nc + nt), "cc": None, "cv": None}
+        if inp["ncb"] and rng.random() < 0.5:
+            k = rng.randint(1, inp["ncb"])
+            g["cc"] = rng.sample(range(inp["ncb"]), k)
+            g["cv"] = rng.randrange(2 ** k)
+        ops.insert(pos, g)
+        inp["ops"] = ops
+        m = n_meas(inp)
+        if m > 4:
+            continue
+        if inp["mode"] == "run":
+            inp["mres"] = [rng.randint(0, 1) for _ in range(m)]
+        elif inp["mode"] == "rand":
+            inp["orc"] = [rng.randint(0, 1) for _ in range(m)]
+        if rng.random() < 0.5:
+            inp["ket"] = rand_ket(rng, inp["n"], "rand")
+        return inp
+    raise RuntimeError("gen_special")
 
 
 def gen_malformed(rng):
@@ -242,7 +367,13 @@ def build(inp):
     from qutip_qip.circuit import QubitCircuit
     n = inp["n"]
     qc = QubitCircuit(n, num_cbits=inp["ncb"])
-    qc.user_gates = {"R345": Qobj(gate_matrix("R345"))}
+    def uf0():
+        return Qobj(gate_matrix("UF0"), dims=[[2, 2], [2, 2]])
+
+    def uf1(a):
+        return Qobj(np.diag([1, 1j ** a]))
+
+    qc.user_gates = {"R345": Qobj(gate_matrix("R345")), "UF0": uf0, "UF1": uf1}
     for o in inp["ops"]:
         if "m" in o:
             qc.add_measurement("M", targets=[o["m"]], classical_store=o["store"])
@@ -251,12 +382,22 @@ def build(inp):
             kw = {}
             if nc:
                 kw["controls"] = list(o["q"][:nc])
-            kw["targets"] = list(o["q"][nc:])
+            if nt:
+                kw["targets"] = list(o["q"][nc:])
             if o.get("cc") is not None:
                 kw["classical_controls"] = list(o["cc"])
                 if o.get("cv") is not None:
                     kw["classical_control_value"] = o["cv"]
-            qc.add_gate(o["g"], **kw)
+            name = o["g"]
+            if name.startswith("MCX_"):
+                from qutip_qip.operations.gateclass import ControlledGate, X as XGate
+                qc.add_gate(ControlledGate(control_value=int(name[4:]), target_gate=XGate, **kw))
+                continue
+            if name in PYGATE:
+                name, arg = PYGATE[name]
+                if arg is not None:
+                    kw["arg_value"] = arg
+            qc.add_gate(name, **kw)
     v = np.array([complex(a, b) for a, b in inp["ket"]])
     v = v / np.linalg.norm(v)
     ket = Qobj(v.reshape(-1, 1), dims=[[2] * n, [1] * n])
@@ -825,6 +966,11 @@ def correspond(ctx):
     for _ in range(ctx.n(420, 4000)):
         tops.append(gen_input(rng, nmax=4 if (ctx.thorough or rng.random() < 0.15) else 3, big=ctx.thorough))
     tops += [gen_malformed(rng) for _ in range(ctx.n(60, 400))]
+    # every special-cased gate kind x every mode x every place relative to the measurements
+    for name in sorted(set(SPECIAL)):
+        for md in ("stats", "run", "rand", "dm"):
+            for where in (("before", "between", "after") if (ctx.thorough or name.startswith("GP_")) else (rng.choice(["before", "between", "after"]),)):
+                tops.append(gen_special(rng, name, md, where))
     tops += [gen_history(rng, nmax=4 if ctx.thorough else 3) for _ in range(ctx.n(140, 1200))]
     if ctx.thorough:
         ex = exhaustive_inputs()
@@ -866,6 +1012,10 @@ def correspond(ctx):
             corr.tally("dm:reads-written-bit")
         if any(o.get("cc") for o in inp["ops"] if "g" in o):
             corr.tally("has-classical-control")
+        for kind in sorted({("GLOBALPHASE" if o["g"].startswith("GP_") else "user-gate" if o["g"] in ("R345", "UF0") or o["g"].startswith("UF1") else
+                             "multi-controlled" if GATES[o["g"]][2] >= 2 or o["g"] == "FREDKIN" else "parameterised" if o["g"] in PYGATE else None)
+                            for o in inp["ops"] if "g" in o} - {None}):
+            corr.tally("gate:" + kind + ("/dm" if inp["mode"] == "dm" else ""))
         if len({o["m"] for o in inp["ops"] if "m" in o}) < n_meas(inp):
             corr.tally("repeated-measurement")
         st = [o["store"] for o in inp["ops"] if "m" in o and o["store"] is not None]
